@@ -60,3 +60,25 @@ Proof. vm_compute. reflexivity. Qed.
 Example export_ex :
   export_rename_all 100 [] [nm "x"; nm "x"; nm "x2"; nm "x"; nm "y"] = Some [nm "x"; nm "x2"; nm "x23"; nm "x3"; nm "y"].
 Proof. vm_compute. reflexivity. Qed.
+
+(* the look-alike case of ExportRenamer: a requested name equal to a generated one *)
+Example export_lookalike_ex :
+  export_rename_all 100 [] [nm "x"; nm "x"; nm "x2"] = Some [nm "x"; nm "x2"; nm "x23"].
+Proof. vm_compute. reflexivity. Qed.
+
+(* a chunk of two files: top-level x (file 0), x (file 1), a nested symbol in slot 0;
+   first top-level slot 1; the whole minifier pipeline gives three different names *)
+Example chunk_ex :
+  match minify_rename 100 ex_syms [(2%nat, 0)] (mkCnt 1 0 0 0) [0; 1] ex_reserved default_minifier []
+          [[(0%nat, 3); (2%nat, 1)]; [(5%nat, 2)]] with
+  | Some m => map (minify_name_for ex_syms [(2%nat, 0)] m) [0%nat; 5%nat; 2%nat]
+  | None => []
+  end = [nm "a"; nm "b"; nm "c"].
+Proof. vm_compute. reflexivity. Qed.
+
+(* a pinned symbol on a direct-eval chain is reserved *)
+Definition ev_syms : symtab := mk_symtab [(nm "g", 4, -1, false, 0, 0); (nm "a", 4, -1, false, 0, 1); (nm "q", 0, -1, false, 0, 2)]%Z.
+Definition ev_module : scope := Scope [0%nat] [] None true [Scope [1%nat] [] None true [Scope [2%nat] [] None false []]].
+Example eval_reach_ex : eval_reach_decls ev_module = [0%nat; 1%nat]
+  /\ mem_name (nm "a") (ComputeReservedNames ev_syms [ev_module]) = true.
+Proof. vm_compute. auto. Qed.
